@@ -43,6 +43,8 @@ enum Ev {
     ReceiptTimer,
     Bmca,
     OtherRequesterResp(usize),
+    /// Announce from a lower-numbered port of our own clock on the same segment
+    SiblingAnnounce,
 }
 
 impl Check for C14 {
@@ -135,6 +137,9 @@ impl Check for C14 {
             if ch.chance(S_WORK, 1, 4) {
                 evs.push(Ev::OtherRequesterResp(0));
             }
+            if ch.chance(S_WORK, 1, 6) {
+                evs.push(Ev::SiblingAnnounce);
+            }
             ch.shuffle(S_WORK, &mut evs);
             evs.insert(0, Ev::Timer);
 
@@ -209,6 +214,12 @@ impl Check for C14 {
                         script.push("bmca".into());
                         w.run_bmca(0, ch);
                     }
+                    Ev::SiblingAnnounce => {
+                        // our own clock, port number 0 < ours: the "two ports on one segment" rule
+                        let f = announce_frame(Pid::new(OWN, 0), 7 + script.len() as u16, &GmData::simple(OWN, 200), 0, 0, 0);
+                        script.push("Announce from a lower-numbered port of our own clock".into());
+                        w.host_call(0, 0, HostCall::RxGeneral(Rc::new(f.encode())), ch);
+                    }
                     Ev::OtherRequesterResp(k) => {
                         let Some(seq) = req_seq else { continue };
                         let rd = &resp[*k];
@@ -238,7 +249,7 @@ impl Check for C14 {
                     if !clean {
                         viol.push((
                             "C14.faulty_left_without_clean_exchange".into(),
-                            format!("via={}", match e { Ev::ReceiptTimer => "announce_receipt_timer", Ev::Bmca => "bmca", Ev::TxTs(_) => "late_tx_timestamp_of_doubly_answered_request", _ => "other" }),
+                            format!("via={}", match e { Ev::ReceiptTimer => "announce_receipt_timer", Ev::Bmca => "bmca", Ev::TxTs(_) => "late_tx_timestamp_of_doubly_answered_request", Ev::SiblingAnnounce => "announce_from_sibling_port", _ => "other" }),
                             format!("port left Faulty ({after:?}) in a call that did not complete an exchange answered by exactly one responder; script: {}", script.join(" | ")),
                         ));
                     }
